@@ -1,5 +1,5 @@
-import CardVerif.Model.Rank5
-import CardVerif.Spec.Poker5
+import CardModel.Model.Rank5
+import CardModel.Spec.Poker5
 /-!
 # C05 — the finite table: definitions (core Lean only, so the table files start compiling at once)
 
